@@ -46,7 +46,7 @@ TOL_EIG_SPARSE = 1e-7
 
 
 def budget(tier):
-    return {"examples": 4000 if tier == "quick" else 60000, "shards": 16, "shrink": 200 if tier == "quick" else 1000}
+    return {"examples": 5000 if tier == "quick" else 120000, "shards": 16, "shrink": 200 if tier == "quick" else 1000}
 
 
 # ----------------------------------------------------------------------------------------------------------------
